@@ -7,8 +7,13 @@ import time
 import facts
 
 VERIF = facts.VERIF
-OUT = os.path.join(VERIF, "out", "violations")
-EVID = os.path.join(VERIF, "evidence")
+if os.environ.get("XCPV_NOEVIDENCE"):
+    # self-test runs against scratch copies must not touch the real evidence / replay files
+    OUT = os.path.join(VERIF, "out", "selftest", "violations")
+    EVID = os.path.join(VERIF, "out", "selftest", "evidence")
+else:
+    OUT = os.path.join(VERIF, "out", "violations")
+    EVID = os.path.join(VERIF, "evidence")
 
 
 class Ob:
